@@ -408,4 +408,487 @@ theorem envOK_tail (G : Blocks Ty) (R : Blocks Val) (h : envOK G R) : envOK G.ta
   cases G <;> cases R <;> simp [envOK] at h ⊢
   exact h.2
 
+-- ------------------------------------------------------------------ soundness of the straight-line fragment
+
+/-- Outcomes allowed for a well-typed expression of type `T` (function return type `retT`). -/
+def ResOK (retT T : Ty) (Γ' : Blocks Ty) : Res → Prop
+  | .val v ρ' => hasTy v T = true ∧ envOK Γ' ρ'
+  | .ret v => hasTy v retT = true
+  | .brk _ => False
+  | .cont _ => False
+  | .err e => e.isTypeError = false
+  | .timeout => True
+
+theorem fin_inv (exp : Option Ty) (T T' : Ty) (Γ Γ' : Blocks Ty) (d : List Diag)
+    (h : fin exp T Γ d = (T', Γ', [])) :
+    T' = T ∧ Γ' = Γ ∧ d = [] ∧ (∀ E, exp = some E → Ty.sub T E = true) := by
+  unfold fin at h
+  split at h
+  · simp at h; simp [h]
+  · rename_i E
+    split at h
+    · rename_i hs
+      simp at h
+      obtain ⟨h1, h2, h3⟩ := h
+      subst h1 h2 h3
+      simp [hs]
+    · simp at h
+
+theorem intBinop_ok_val (op : BinOp) (hop : isIntArith op = true ∨ op = .lt ∨ op = .le ∨ op = .gt ∨ op = .ge)
+    (a b : Int64) (v : Val) (h : intBinop op a b = .ok v) :
+    hasTy v (if isIntArith op then tInt else tBool) = true := by
+  cases op <;> simp [isIntArith] at hop <;> simp only [intBinop] at h
+  all_goals (repeat' split at h)
+  all_goals (first | cases h | skip)
+  all_goals simp [hasTy, isNamed, tInt, tBool, isIntArith]
+
+theorem intBinop_ok_err (op : BinOp) (hop : isIntArith op = true ∨ op = .lt ∨ op = .le ∨ op = .gt ∨ op = .ge)
+    (a b : Int64) (e : RErr) (h : intBinop op a b = .error e) : e.isTypeError = false := by
+  cases op <;> simp [isIntArith] at hop <;> simp only [intBinop] at h
+  all_goals (repeat' split at h)
+  all_goals (first | cases h | skip)
+  all_goals simp [RErr.isTypeError]
+
+mutual
+def slE (P : Program) : Nat → TExpr → Bool
+  | 0, _ => false
+  | d + 1, e =>
+    match e with
+    | .int _ | .str _ | .retUnit => true
+    | .var x => (isValueGlobal x && (findFun P x).isNone) || !(isGlobalName P x)
+    | .paren e => slE P d e
+    | .binop _ l r => slE P d l && slE P d r
+    | .letE _ _ e => slE P d e
+    | .ret e => slE P d e
+    | _ => false
+def slL (P : Program) : Nat → List TExpr → Bool
+  | 0, _ => false
+  | _ + 1, [] => true
+  | d + 1, [e] => slE P d e
+  | d + 1, e :: e2 :: rest => slE P d e && slL P d (e2 :: rest)
+end
+
+/-- In checked position the inferred type is below the expected one. -/
+theorem tc_chk_sub (P : Program) (d : Nat) (e : TExpr) (ret E T : Ty) (Γ Γ' : Blocks Ty)
+    (hs : slE P d e = true) (h : tcExpr P ret (some E) Γ e = (T, Γ', [])) : Ty.sub T E = true := by
+  cases d with
+  | zero => simp [slE] at hs
+  | succ d =>
+  cases e <;> simp only [slE] at hs <;> simp only [tcExpr] at h
+  all_goals (try (simp at hs; done))
+  all_goals (repeat' split at h)
+  all_goals (first
+    | (obtain ⟨hT, _, _, hsub⟩ := fin_inv _ _ _ _ _ _ h; rw [hT]; exact hsub E rfl)
+    | skip)
+
+
+theorem resOK_pass (retT T T' : Ty) (Γ1 Γ' : Blocks Ty) (r : Res) (h : ResOK retT T Γ1 r)
+    (hv : ∀ v ρ, r ≠ .val v ρ) : ResOK retT T' Γ' r := by
+  cases r <;> simp [ResOK] at h ⊢
+  case val v ρ => exact absurd rfl (hv v ρ)
+  all_goals exact h
+
+theorem binop_eval_ok (P : Program) (n : Nat) (ρ : Blocks Val) (l r : TExpr) (op : BinOp)
+    (ret T1 T2 opnd res : Ty) (Γ1 Γ2 : Blocks Ty)
+    (ihl : ResOK ret T1 Γ1 (eval P n ρ l)) (hs1 : Ty.sub T1 opnd = true) (gO : good opnd = true)
+    (ihr : ∀ ρ1, envOK Γ1 ρ1 → ResOK ret T2 Γ2 (eval P n ρ1 r)) (hs2 : Ty.sub T2 opnd = true)
+    (hop : ∀ lv rv, hasTy lv opnd = true → hasTy rv opnd = true →
+      (∀ v, binopVal op lv rv = .ok v → hasTy v res = true) ∧
+      (∀ e, binopVal op lv rv = .error e → e.isTypeError = false)) :
+    ResOK ret res Γ2 (eval P (n + 1) ρ (.binop op l r)) := by
+  simp only [eval]
+  cases hl : eval P n ρ l with
+  | val lv ρ1 =>
+    rw [hl] at ihl
+    simp [ResOK] at ihl
+    have ihr' := ihr ρ1 ihl.2
+    simp only []
+    cases hr : eval P n ρ1 r with
+    | val rv ρ2 =>
+      rw [hr] at ihr'
+      simp [ResOK] at ihr'
+      have h := hop lv rv (hasTy_sub lv T1 opnd ihl.1 hs1 gO) (hasTy_sub rv T2 opnd ihr'.1 hs2 gO)
+      cases hb : binopVal op lv rv with
+      | ok v => simp only [hb]; simp [ResOK, ihr'.2, h.1 v hb]
+      | error er => simp only [hb]; simp [ResOK, h.2 er hb]
+    | _ => rw [hr] at ihr'; simp [ResOK] at ihr' ⊢; try exact ihr'
+  | _ => rw [hl] at ihl; simp [ResOK] at ihl ⊢; try exact ihl
+
+theorem hop_eq (op : BinOp) (h : op = .eq ∨ op = .ne) (lv rv : Val) :
+    (∀ v, binopVal op lv rv = .ok v → hasTy v tBool = true) ∧
+    (∀ e, binopVal op lv rv = .error e → e.isTypeError = false) := by
+  rcases h with rfl | rfl <;> simp [binopVal, hasTy, isNamed, tBool]
+
+theorem hop_cmp (op : BinOp) (h : op = .lt ∨ op = .le ∨ op = .gt ∨ op = .ge) (lv rv : Val)
+    (h1 : hasTy lv tInt = true) (h2 : hasTy rv tInt = true) :
+    (∀ v, binopVal op lv rv = .ok v → hasTy v tBool = true) ∧
+    (∀ e, binopVal op lv rv = .error e → e.isTypeError = false) := by
+  obtain ⟨a, rfl⟩ := canon_int lv h1
+  obtain ⟨b, rfl⟩ := canon_int rv h2
+  have hbv : binopVal op (.int a) (.int b) = intBinop op a b := by
+    rcases h with rfl | rfl | rfl | rfl <;> simp [binopVal]
+  rw [hbv]
+  constructor
+  · intro v hv
+    have := intBinop_ok_val op (Or.inr h) a b v hv
+    rcases h with rfl | rfl | rfl | rfl <;> simpa [isIntArith] using this
+  · intro e he
+    exact intBinop_ok_err op (Or.inr h) a b e he
+
+theorem hop_bool (op : BinOp) (h : op = .and ∨ op = .or) (lv rv : Val)
+    (h1 : hasTy lv tBool = true) (h2 : hasTy rv tBool = true) :
+    (∀ v, binopVal op lv rv = .ok v → hasTy v tBool = true) ∧
+    (∀ e, binopVal op lv rv = .error e → e.isTypeError = false) := by
+  obtain ⟨a, rfl⟩ := canon_bool lv h1
+  obtain ⟨b, rfl⟩ := canon_bool rv h2
+  rcases h with rfl | rfl <;> simp [binopVal, hasTy, isNamed, tBool]
+
+theorem hop_concat (lv rv : Val) (h1 : hasTy lv tStr = true) (h2 : hasTy rv tStr = true) :
+    (∀ v, binopVal .concat lv rv = .ok v → hasTy v tStr = true) ∧
+    (∀ e, binopVal .concat lv rv = .error e → e.isTypeError = false) := by
+  obtain ⟨a, rfl⟩ := canon_str lv h1
+  obtain ⟨b, rfl⟩ := canon_str rv h2
+  simp [binopVal, hasTy, isNamed, tStr]
+
+theorem sound_sl (P : Program) : ∀ n,
+    (∀ d e ret exp Γ ρ T Γ', slE P d e = true → tcExpr P ret exp Γ e = (T, Γ', []) →
+      (∀ E, exp = some E → good E = true) → good ret = true →
+      envOK Γ ρ → ResOK ret T Γ' (eval P n ρ e)) ∧
+    (∀ d es ret exp Γ ρ T Γ', slL P d es = true → tcSeq P ret exp Γ es = (T, Γ', []) →
+      (∀ E, exp = some E → good E = true) → good ret = true →
+      envOK Γ ρ → ResOK ret T Γ' (evalSeq P n ρ es)) := by
+  intro n
+  induction n with
+  | zero =>
+    constructor
+    · intros; simp [eval, ResOK]
+    · intros; simp [evalSeq, ResOK]
+  | succ n ih =>
+    obtain ⟨ihE, ihL⟩ := ih
+    constructor
+    · intro d e ret exp Γ ρ T Γ' hs htc hexp hret henv
+      cases d with
+      | zero => simp [slE] at hs
+      | succ d =>
+      cases e with
+      | int v =>
+        simp only [tcExpr] at htc
+        obtain ⟨h1, h2, _, _⟩ := fin_inv _ _ _ _ _ _ htc
+        subst h1 h2
+        simp [eval, ResOK, hasTy, isNamed, tInt, henv]
+      | str v =>
+        simp only [tcExpr] at htc
+        obtain ⟨h1, h2, _, _⟩ := fin_inv _ _ _ _ _ _ htc
+        subst h1 h2
+        simp [eval, ResOK, hasTy, isNamed, tStr, henv]
+      | retUnit =>
+        simp only [tcExpr] at htc
+        obtain ⟨h1, h2, h3, _⟩ := fin_inv _ _ _ _ _ _ htc
+        simp [eval, ResOK]
+        split at h3
+        · rename_i hsub
+          exact hasTy_sub .unit tUnit ret (by simp [hasTy, isNamed, tUnit]) hsub hret
+        · simp at h3
+      | paren e =>
+        simp only [slE] at hs
+        simp only [tcExpr] at htc
+        cases h1 : tcExpr P ret none Γ e with
+        | mk T1 r1 =>
+        cases r1 with
+        | mk Γ1 d1 =>
+        rw [h1] at htc
+        simp only at htc
+        obtain ⟨hT, hΓ, hd, _⟩ := fin_inv _ _ _ _ _ _ htc
+        subst hT hΓ hd
+        have := ihE d e ret none Γ ρ T Γ' hs h1 (by simp) hret henv
+        simp only [eval]
+        exact this
+      | ret e =>
+        simp only [slE] at hs
+        simp only [tcExpr] at htc
+        cases h1 : tcExpr P ret (some ret) Γ e with
+        | mk T1 r1 =>
+        cases r1 with
+        | mk Γ1 d1 =>
+        rw [h1] at htc
+        simp only at htc
+        obtain ⟨hT, hΓ, hd, _⟩ := fin_inv _ _ _ _ _ _ htc
+        subst hd
+        have ih1 := ihE d e ret (some ret) Γ ρ T1 Γ1 hs h1 (by intro E hE; cases hE; exact hret) hret henv
+        have hsub := tc_chk_sub P d e ret ret T1 Γ Γ1 hs h1
+        simp only [eval]
+        cases hev : eval P n ρ e with
+        | val v ρ1 =>
+          rw [hev] at ih1
+          simp [ResOK] at ih1 ⊢
+          exact hasTy_sub v T1 ret ih1.1 hsub hret
+        | _ => rw [hev] at ih1; simp [ResOK] at ih1 ⊢; try exact ih1
+      | letE x hint e =>
+        simp only [slE] at hs
+        simp only [tcExpr] at htc
+        cases hint with
+        | some h =>
+          simp only at htc
+          cases h1 : tcExpr P ret (some h.toTy) Γ e with
+          | mk T1 r1 =>
+          cases r1 with
+          | mk Γ1 d1 =>
+          rw [h1] at htc
+          simp only at htc
+          obtain ⟨hT, hΓ, hd, _⟩ := fin_inv _ _ _ _ _ _ htc
+          subst hT hΓ hd
+          have hg := Hint.toTy_good h
+          have ih1 := ihE d e ret (some h.toTy) Γ ρ T1 Γ1 hs h1 (by intro E hE; cases hE; exact hg) hret henv
+          have hsub := tc_chk_sub P d e ret h.toTy T1 Γ Γ1 hs h1
+          simp only [eval]
+          cases hev : eval P n ρ e with
+          | val v ρ1 =>
+            rw [hev] at ih1
+            simp [ResOK] at ih1
+            have hv := hasTy_sub v T1 h.toTy ih1.1 hsub hg
+            have hchk := hasTy_sub_typeOf v h.toTy hv
+            simp [hchk, ResOK, hasTy, isNamed, tUnit]
+            exact setB_ok _ _ x _ v ih1.2 hv
+          | _ => rw [hev] at ih1; simp [ResOK] at ih1 ⊢; try exact ih1
+        | none =>
+          simp only at htc
+          cases h1 : tcExpr P ret none Γ e with
+          | mk T1 r1 =>
+          cases r1 with
+          | mk Γ1 d1 =>
+          rw [h1] at htc
+          simp only at htc
+          obtain ⟨hT, hΓ, hd, _⟩ := fin_inv _ _ _ _ _ _ htc
+          subst hT hΓ hd
+          have ih1 := ihE d e ret none Γ ρ T1 Γ1 hs h1 (by simp) hret henv
+          simp only [eval]
+          cases hev : eval P n ρ e with
+          | val v ρ1 =>
+            rw [hev] at ih1
+            simp [ResOK] at ih1
+            simp [ResOK, hasTy, isNamed, tUnit]
+            exact setB_ok _ _ x _ v ih1.2 ih1.1
+          | _ => rw [hev] at ih1; simp [ResOK] at ih1 ⊢; try exact ih1
+      | var x =>
+        simp only [slE] at hs
+        simp only [tcExpr] at htc
+        cases h1 : inferVar P Γ x with
+        | mk T1 r1 =>
+        cases r1 with
+        | mk Γ1 d1 =>
+        rw [h1] at htc
+        simp only at htc
+        obtain ⟨hT, hΓ, hd, _⟩ := fin_inv _ _ _ _ _ _ htc
+        subst hT hΓ hd
+        have hl := lookupB_ok Γ ρ x henv
+        unfold inferVar at h1
+        cases hg : lookupB Γ x with
+        | some T0 =>
+          rw [hg] at h1
+          simp at h1
+          obtain ⟨e1, e2⟩ := h1
+          subst e1 e2
+          obtain ⟨v, hv1, hv2⟩ := hl.1 T0 hg
+          simp [eval, hv1, ResOK, hv2, henv]
+        | none =>
+          rw [hg] at h1
+          simp only at h1
+          have hρ := hl.2 hg
+          simp at hs
+          rcases hs with ⟨hvg, hff⟩ | hng
+          · simp [isValueGlobal] at hvg
+            rcases hvg with ((rfl | rfl) | rfl) | rfl
+            all_goals
+              simp [globalOf, hff, Global.ty] at h1
+              obtain ⟨e1, e2⟩ := h1
+              subst e1 e2
+              simp [eval, hρ, globalVal, ResOK, hasTy, isNamed, tOption, tBool, tUnit, henv]
+          · simp [isGlobalName, reservedNames] at hng
+            simp [globalOf, hng] at h1
+      | binop op l r =>
+        simp only [slE] at hs
+        simp at hs
+        simp only [tcExpr] at htc
+        by_cases hA : isIntArith op = true
+        · simp only [hA, if_true] at htc
+          cases h1 : tcExpr P ret none Γ l with
+          | mk lt r1 =>
+          cases r1 with
+          | mk Γ1 d1 =>
+          rw [h1] at htc
+          simp only at htc
+          cases h2 : tcExpr P ret none Γ1 r with
+          | mk rt r2 =>
+          cases r2 with
+          | mk Γ2 d2 =>
+          rw [h2] at htc
+          simp only at htc
+          cases h3 : intBinopTy op lt rt with
+          | mk T3 d3 =>
+          rw [h3] at htc
+          simp only at htc
+          obtain ⟨hT, hΓ, hd, _⟩ := fin_inv _ _ _ _ _ _ htc
+          simp at hd
+          obtain ⟨hd1, hd2, hd3⟩ := hd
+          subst hd1
+          subst hd2
+          subst hd3
+          subst hT
+          subst hΓ
+          unfold intBinopTy at h3
+          split at h3
+          · simp at h3
+          split at h3
+          · simp at h3
+          simp at h3
+          obtain ⟨hT3, hsl, hsr⟩ := h3
+          subst hT3
+          have gInt : good tInt = true := by simp [good, tInt, goodName0]
+          have ihl := ihE d l ret none Γ ρ lt Γ1 hs.1 h1 (by simp) hret henv
+          simp only [eval]
+          cases hl : eval P n ρ l with
+          | val lv ρ1 =>
+            rw [hl] at ihl
+            simp [ResOK] at ihl
+            have ihr := ihE d r ret none Γ1 ρ1 rt Γ' hs.2 h2 (by simp) hret ihl.2
+            simp only []
+            cases hr : eval P n ρ1 r with
+            | val rv ρ2 =>
+              rw [hr] at ihr
+              simp [ResOK] at ihr
+              obtain ⟨a, rfl⟩ := canon_int lv (hasTy_sub lv lt tInt ihl.1 hsl gInt)
+              obtain ⟨b, rfl⟩ := canon_int rv (hasTy_sub rv rt tInt ihr.1 hsr gInt)
+              have hbv : binopVal op (.int a) (.int b) = intBinop op a b := by
+                cases op <;> simp [isIntArith] at hA <;> simp [binopVal]
+              simp only [hbv]
+              cases hb : intBinop op a b with
+              | ok v =>
+                have := intBinop_ok_val op (Or.inl hA) a b v hb
+                simp [hA] at this
+                simp [ResOK, ihr.2, this]
+              | error er =>
+                simp [ResOK]
+                exact intBinop_ok_err op (Or.inl hA) a b er hb
+            | _ => rw [hr] at ihr; simp [ResOK] at ihr ⊢; try exact ihr
+          | _ => rw [hl] at ihl; simp [ResOK] at ihl ⊢; try exact ihl
+        · simp only [hA] at htc
+          have gBool : good tBool = true := by simp [good, tBool, goodName0]
+          have gInt : good tInt = true := by simp [good, tInt, goodName0]
+          have gStr : good tStr = true := by simp [good, tStr, goodName0]
+          by_cases hB : (op == .eq || op == .ne) = true
+          · simp only [hB, if_true] at htc
+            cases h1 : tcExpr P ret none Γ l with
+            | mk lt r1 =>
+            cases r1 with
+            | mk Γ1 d1 =>
+            rw [h1] at htc
+            simp only at htc
+            cases h2 : tcExpr P ret none Γ1 r with
+            | mk rt r2 =>
+            cases r2 with
+            | mk Γ2 d2 =>
+            rw [h2] at htc
+            simp only at htc
+            obtain ⟨hT, hΓ, hd, _⟩ := fin_inv _ _ _ _ _ _ htc
+            simp at hd
+            obtain ⟨hd1, hd2⟩ := hd
+            subst hd1
+            subst hd2
+            subst hT
+            subst hΓ
+            have hop' : op = .eq ∨ op = .ne := by simpa using hB
+            exact binop_eval_ok P n ρ l r op ret lt rt .any tBool Γ1 Γ'
+              (ihE d l ret none Γ ρ lt Γ1 hs.1 h1 (by simp) hret henv) (Ty.sub_any lt) (by simp [good])
+              (fun ρ1 h => ihE d r ret none Γ1 ρ1 rt Γ' hs.2 h2 (by simp) hret h) (Ty.sub_any rt)
+              (fun lv rv _ _ => hop_eq op hop' lv rv)
+          · simp only [hB] at htc
+            have key : ∀ opnd res, good opnd = true →
+                fin exp res (tcExpr P ret (some opnd) (tcExpr P ret (some opnd) Γ l).2.fst r).2.fst
+                  ((tcExpr P ret (some opnd) Γ l).2.snd ++
+                    (tcExpr P ret (some opnd) (tcExpr P ret (some opnd) Γ l).2.fst r).2.snd) = (T, Γ', []) →
+                (∀ lv rv, hasTy lv opnd = true → hasTy rv opnd = true →
+                  (∀ v, binopVal op lv rv = .ok v → hasTy v res = true) ∧
+                  (∀ e, binopVal op lv rv = .error e → e.isTypeError = false)) →
+                ResOK ret T Γ' (eval P (n + 1) ρ (.binop op l r)) := by
+              intro opnd res gO htc' hop
+              cases h1 : tcExpr P ret (some opnd) Γ l with
+              | mk lt r1 =>
+              cases r1 with
+              | mk Γ1 d1 =>
+              rw [h1] at htc'
+              simp only at htc'
+              cases h2 : tcExpr P ret (some opnd) Γ1 r with
+              | mk rt r2 =>
+              cases r2 with
+              | mk Γ2 d2 =>
+              rw [h2] at htc'
+              simp only at htc'
+              obtain ⟨hT, hΓ, hd, _⟩ := fin_inv _ _ _ _ _ _ htc'
+              simp at hd
+              obtain ⟨hd1, hd2⟩ := hd
+              subst hd1
+              subst hd2
+              subst hT
+              subst hΓ
+              have hE : ∀ E, some opnd = some E → good E = true := by
+                intro E hE; cases hE; exact gO
+              exact binop_eval_ok P n ρ l r op ret lt rt opnd T Γ1 Γ'
+                (ihE d l ret (some opnd) Γ ρ lt Γ1 hs.1 h1 hE hret henv)
+                (tc_chk_sub P d l ret opnd lt Γ Γ1 hs.1 h1) gO
+                (fun ρ1 h => ihE d r ret (some opnd) Γ1 ρ1 rt Γ' hs.2 h2 hE hret h)
+                (tc_chk_sub P d r ret opnd rt Γ1 Γ' hs.2 h2) hop
+            cases op <;> simp [isIntArith] at hA hB
+            all_goals simp at htc
+            case lt => exact key tInt tBool gInt htc (fun lv rv a b => hop_cmp _ (by simp) lv rv a b)
+            case le => exact key tInt tBool gInt htc (fun lv rv a b => hop_cmp _ (by simp) lv rv a b)
+            case gt => exact key tInt tBool gInt htc (fun lv rv a b => hop_cmp _ (by simp) lv rv a b)
+            case ge => exact key tInt tBool gInt htc (fun lv rv a b => hop_cmp _ (by simp) lv rv a b)
+            case and => exact key tBool tBool gBool htc (fun lv rv a b => hop_bool _ (by simp) lv rv a b)
+            case or => exact key tBool tBool gBool htc (fun lv rv a b => hop_bool _ (by simp) lv rv a b)
+            case concat => exact key tStr tStr gStr htc (fun lv rv a b => hop_concat lv rv a b)
+      | _ => simp [slE] at hs
+    · intro d es ret exp Γ ρ T Γ' hs htc hexp hret henv
+      cases d with
+      | zero => simp [slL] at hs
+      | succ d =>
+      match es with
+      | [] =>
+        simp only [tcSeq] at htc
+        simp at htc
+        obtain ⟨h1, h2, h3⟩ := htc
+        subst h1 h2
+        simp [evalSeq, ResOK, hasTy, isNamed, tUnit, henv]
+      | [e] =>
+        simp only [slL] at hs
+        simp only [tcSeq] at htc
+        simp only [evalSeq]
+        exact ihE d e ret exp Γ ρ T Γ' hs htc hexp hret henv
+      | e :: e2 :: rest =>
+        simp only [slL] at hs
+        simp at hs
+        simp only [tcSeq] at htc
+        cases h1 : tcExpr P ret none Γ e with
+        | mk T1 r1 =>
+        cases r1 with
+        | mk Γ1 d1 =>
+        rw [h1] at htc
+        simp only at htc
+        cases h2 : tcSeq P ret exp Γ1 (e2 :: rest) with
+        | mk T2 r2 =>
+        cases r2 with
+        | mk Γ2 d2 =>
+        rw [h2] at htc
+        simp at htc
+        obtain ⟨hT, hΓ, hd1, hd2⟩ := htc
+        subst hT hΓ hd1 hd2
+        have ih1 := ihE d e ret none Γ ρ T1 Γ1 hs.1 h1 (by simp) hret henv
+        simp only [evalSeq]
+        cases hev : eval P n ρ e with
+        | val v ρ1 =>
+          rw [hev] at ih1
+          simp [ResOK] at ih1
+          exact ihL d (e2 :: rest) ret exp Γ1 ρ1 T2 Γ2 hs.2 h2 hexp hret ih1.2
+        | _ => rw [hev] at ih1; simp [ResOK] at ih1 ⊢; try exact ih1
+
+
 end Check
